@@ -236,3 +236,18 @@ func CheckEnumRefs(e *acmelib.SignalEnum) []string {
 	}
 	return out
 }
+
+// CheckBuilderRefs: a CAN-ID builder (custom, or a default one obtained from Bus.CANIDBuilder and
+// held by the caller) lists as references exactly buses that currently use it.
+func CheckBuilderRefs(cb *acmelib.CANIDBuilder, what string) []string {
+	var out []string
+	if cb == nil {
+		return out
+	}
+	for _, r := range cb.References() {
+		if r.CANIDBuilder() != cb {
+			addf(&out, "c05-refs-builder", "%s lists bus %q which uses another builder", what, r.Name())
+		}
+	}
+	return out
+}
